@@ -24,6 +24,14 @@ CHECKS = {
             "is compared by TLC with the exact set computed from the recorded structure.",
             "Trusted: TLC, projection. Termination is decided by a step budget plus alarm. Bounded sizes.",
             "DESIGN.md section 3 C04"),
+    "C02": ("TLA+ two-object API state machine (FAGen2: independent and derived pairs) enumerated by TLC, replayed "
+            "through the public API; is_equivalent_to / == / minimize judged by TraceFA: exact Equiv by product "
+            "reachability, Myhill-Nerode reducedness, isomorphism of the minimal automata of equivalent operands",
+            "Exhaustive within small constants over ordered pairs (B independent, or A's history plus <=2 further calls "
+            "over one extra state: explicit sinks, dead/unreachable states, larger alphabets), both call directions, "
+            "label permutations and hash seeds; every verdict is compared by TLC with an exact equivalence decision.",
+            "Trusted: TLC, projection. Bounded sizes; the derived family is the part that reaches sink/dead-state pairs.",
+            "DESIGN.md section 3 C02"),
 }
 
 NOT_YET = "check not built yet in this round (see DESIGN.md section 9, build order); no claim is made"
